@@ -6,6 +6,132 @@
 
 use std::alloc::{GlobalAlloc, Layout, System};
 use std::cell::UnsafeCell;
+use std::sync::atomic::{AtomicUsize, Ordering};
+
+// ---------------------------------------------------------------------------
+// Deterministic placement of world allocations ("bump mode").
+//
+// happylock's sorting collections order locks by address, so what a case means
+// depends on where its by-value members land on the heap.  While a world is
+// being built, allocations of the building thread are served from a private
+// region in a way that is a pure function of the case: allocation k goes to the
+// bottom (ascending) or to the top (descending) of the region depending on the
+// case's `layout` bytes.  Frees of region memory are no-ops; a region is reused
+// by the next world built on the same thread (the previous world is gone by
+// then, or the region is abandoned).
+
+const REGION_SIZE: usize = 1 << 20;
+const MAX_REGIONS: usize = 4096;
+const BUMP_MAX_ALLOC: usize = 1 << 16;
+
+static REGION_BASES: [AtomicUsize; MAX_REGIONS] = [const { AtomicUsize::new(0) }; MAX_REGIONS];
+static REGION_COUNT: AtomicUsize = AtomicUsize::new(0);
+static REGION_MIN: AtomicUsize = AtomicUsize::new(usize::MAX);
+static REGION_MAX: AtomicUsize = AtomicUsize::new(0);
+
+struct Bump {
+	base: usize,
+	lo: usize,
+	hi: usize,
+	active: bool,
+	count: usize,
+	layout: [u8; 32],
+	layout_len: usize,
+}
+
+struct BCell(UnsafeCell<Bump>);
+unsafe impl Sync for BCell {}
+
+thread_local! {
+	static B: BCell = const { BCell(UnsafeCell::new(Bump { base: 0, lo: 0, hi: 0, active: false, count: 0, layout: [0; 32], layout_len: 0 })) };
+}
+
+#[inline]
+fn in_region(p: usize) -> bool {
+	if p < REGION_MIN.load(Ordering::Relaxed) || p >= REGION_MAX.load(Ordering::Relaxed) {
+		return false;
+	}
+	let n = REGION_COUNT.load(Ordering::Acquire).min(MAX_REGIONS);
+	for b in REGION_BASES.iter().take(n) {
+		let base = b.load(Ordering::Acquire);
+		if base != 0 && p >= base && p < base + REGION_SIZE {
+			return true;
+		}
+	}
+	false
+}
+
+unsafe fn bump_alloc(layout: Layout) -> *mut u8 {
+	B.try_with(|b| {
+		let b = &mut *b.0.get();
+		if !b.active || layout.size() > BUMP_MAX_ALLOC || layout.size() == 0 {
+			return std::ptr::null_mut();
+		}
+		let k = b.count;
+		b.count += 1;
+		let from_top = b.layout_len > 0 && (b.layout[k % b.layout_len] & 1) == 1;
+		let align = layout.align().max(16);
+		if from_top {
+			let p = (b.hi - layout.size()) & !(align - 1);
+			if p < b.lo {
+				return std::ptr::null_mut();
+			}
+			b.hi = p;
+			p as *mut u8
+		} else {
+			let p = (b.lo + align - 1) & !(align - 1);
+			if p + layout.size() > b.hi {
+				return std::ptr::null_mut();
+			}
+			b.lo = p + layout.size();
+			p as *mut u8
+		}
+	})
+	.unwrap_or(std::ptr::null_mut())
+}
+
+/// Run `f` (a world build) with this thread's allocations placed
+/// deterministically according to `layout`.  Without the quarantine allocator
+/// installed as the global allocator (fuzz targets) this is just `f()`.
+pub fn with_bump<T>(layout: &[u8], f: impl FnOnce() -> T) -> T {
+	B.with(|b| unsafe {
+		let b = &mut *b.0.get();
+		if b.base == 0 {
+			// claim a registry slot first (several workers get here at once)
+			let n = REGION_COUNT.fetch_add(1, Ordering::AcqRel);
+			if n < MAX_REGIONS {
+				let p = System.alloc(Layout::from_size_align_unchecked(REGION_SIZE, 4096)) as usize;
+				if p != 0 {
+					REGION_MIN.fetch_min(p, Ordering::AcqRel);
+					REGION_MAX.fetch_max(p + REGION_SIZE, Ordering::AcqRel);
+					REGION_BASES[n].store(p, Ordering::Release);
+					b.base = p;
+				}
+			}
+		}
+		if b.base != 0 {
+			b.lo = b.base;
+			b.hi = b.base + REGION_SIZE;
+			b.count = 0;
+			b.layout_len = layout.len().min(32);
+			b.layout[..b.layout_len].copy_from_slice(&layout[..b.layout_len]);
+			b.active = true;
+		}
+	});
+	let r = f();
+	B.with(|b| unsafe {
+		(*b.0.get()).active = false;
+	});
+	r
+}
+
+/// The world built in this thread's region may still be referenced (a logical
+/// thread could not be joined): never reuse the region.
+pub fn abandon_region() {
+	B.with(|b| unsafe {
+		(*b.0.get()).base = 0;
+	});
+}
 
 const CAP: usize = 2048;
 
@@ -29,15 +155,35 @@ pub struct QuarantineAlloc;
 
 unsafe impl GlobalAlloc for QuarantineAlloc {
 	unsafe fn alloc(&self, layout: Layout) -> *mut u8 {
+		let p = bump_alloc(layout);
+		if !p.is_null() {
+			return p;
+		}
 		System.alloc(layout)
 	}
 	unsafe fn alloc_zeroed(&self, layout: Layout) -> *mut u8 {
+		let p = bump_alloc(layout);
+		if !p.is_null() {
+			std::ptr::write_bytes(p, 0, layout.size());
+			return p;
+		}
 		System.alloc_zeroed(layout)
 	}
 	unsafe fn realloc(&self, ptr: *mut u8, layout: Layout, new_size: usize) -> *mut u8 {
+		if in_region(ptr as usize) {
+			let new_layout = Layout::from_size_align_unchecked(new_size, layout.align());
+			let np = self.alloc(new_layout);
+			if !np.is_null() {
+				std::ptr::copy_nonoverlapping(ptr, np, layout.size().min(new_size));
+			}
+			return np;
+		}
 		System.realloc(ptr, layout, new_size)
 	}
 	unsafe fn dealloc(&self, ptr: *mut u8, layout: Layout) {
+		if in_region(ptr as usize) {
+			return;
+		}
 		let handled = Q
 			.try_with(|q| {
 				let q = &mut *q.0.get();
